@@ -15,6 +15,12 @@ from .sym import (NONE, TAny, TArr, TBool, TBytes, TDict, TEnum, TFunc, TInt, TL
 MAX_DEPTH = 12
 
 
+def _is_logger(node):
+    if isinstance(node, ast.Name) and node.id == "logger":
+        return True
+    return isinstance(node, ast.Attribute) and node.attr == "_logger" and isinstance(node.value, ast.Name) and node.value.id == "self"
+
+
 class CallMixin:
     # ------------------------------------------------------------------ spec helpers
     def parse_clause(self, s):
@@ -46,6 +52,16 @@ class CallMixin:
                 bi = getattr(self, "bi_" + name, None)
                 if bi is not None:
                     return bi(node, env)
+        if isinstance(f, ast.Attribute) and _is_logger(f.value):
+            # stdlib logging: arguments are evaluated, the call itself is dropped (trusted: neither raises nor
+            # touches modelled state) - DESIGN 2.1
+            self.trusted_used.add("logging.Logger.%s (dropped)" % f.attr)
+            for a in node.args:
+                try:
+                    self.eval(a, env)
+                except Unsupported:
+                    pass
+            return NONE
         args, kwargs = self.eval_args(node, env)
         if isinstance(f, ast.Attribute):
             # method on super()
@@ -317,8 +333,17 @@ class CallMixin:
             for j, cl in enumerate(c.requires):
                 self.ctx.oblige("%s:call@%s:%s.requires.%d" % (caller, site, key, j), "call-requires", self.spec_bool(cl, env), site=site, note=cl)
             if not is_init:
+                top = getattr(self, "top_cls", None)
+                own = recv is not None and isinstance(recv.ty, TRef) and top is not None and recv.ty.cls == top
                 for j, cl in enumerate(invs):
-                    self.ctx.oblige("%s:call@%s:%s.inv.%d" % (caller, site, key, j), "call-requires", self.spec_bool(cl, env), site=site, note=cl)
+                    if own:
+                        self.ctx.oblige("%s:call@%s:%s.inv.%d" % (caller, site, key, j), "call-requires", self.spec_bool(cl, env), site=site, note=cl)
+                    else:
+                        # visible-state semantics: an object of ANOTHER class satisfies its class invariant whenever
+                        # none of its own methods is running (every method of that class is proved to preserve it;
+                        # direct writes to its invariant fields from outside are separate obligations)
+                        self.ctx.assume(self.spec_bool(cl, env))
+                        self.assumptions_used.add("visible-state invariants: objects of other classes satisfy their class invariant at call sites (preserved by each of their methods under contract)")
         # exceptional outcomes
         for exc, cond in c.raises.items():
             if self.spec:
@@ -329,12 +354,15 @@ class CallMixin:
             else:
                 taken = self.ctx.branch(self.spec_bool(cond, env.old))
             if taken:
+                rk = self.raise_kwargs(c, exc, env)
                 self.havoc_modifies(c, env)
+                for k, v in rk.items():
+                    env.locals["exc_" + k] = v
                 for cl in c.on_raise.get(exc, []):
                     self.ctx.assume(self.spec_bool(cl, env))
                 for cl in invs:
                     self.ctx.assume(self.spec_bool(cl, env))
-                raise PyRaise(exc, site=site, kwargs=self.raise_kwargs(c, exc, env))
+                raise PyRaise(exc, site=site, kwargs=rk)
         # normal outcome
         self.havoc_modifies(c, env)
         if ret_ty == TNone:
@@ -343,8 +371,11 @@ class CallMixin:
             res = sym.fresh(ret_ty, self.ctx.fresh_name("ret_" + key.split(".")[-1]))
             for f in sym.wf(res):
                 self.ctx.assume(f)
-            if isinstance(ret_ty, TRef) or (isinstance(ret_ty, TOpt) and isinstance(ret_ty.inner, TRef)):
-                pass
+            if isinstance(ret_ty, TRef):
+                self.ref_wf(res.t)
+                self.note_ref(res.t)
+            elif isinstance(ret_ty, TOpt) and isinstance(ret_ty.inner, TRef):
+                self.ctx.assume(z3.Implies(z3.Not(sym.opt_is_none(res)), self.ref_wf_term(sym.opt_val(res).t)))
         env.result = res
         for cl in c.ensures:
             self.ctx.assume(self.spec_bool(cl, env))
@@ -353,8 +384,10 @@ class CallMixin:
         return res
 
     def raise_kwargs(self, c, exc, env):
-        spec = getattr(c, "raise_args", {}).get(exc) if hasattr(c, "raise_args") else None
-        return {}
+        out = {}
+        for attr, expr in c.raise_attrs.get(exc, {}).items():
+            out[attr] = self.spec_val(expr, env.old)
+        return out
 
     def havoc_modifies(self, c, env):
         for loc in c.modifies:
@@ -400,6 +433,11 @@ class CallMixin:
                 loc.update(env.old.locals)
                 e = env.old.child(loc)
                 e.old, e.old_heap = env.old, env.old_heap
+            if env.result is not None:
+                if e is env.old:
+                    e = env.old.child(dict(env.old.locals))
+                    e.old, e.old_heap = env.old, env.old_heap
+                e.result = env.result
             return self.eval(node.args[0], e)
         finally:
             self.spec -= 1
@@ -451,6 +489,8 @@ class CallMixin:
         self.spec += 1
         try:
             a = self.truth(self.evalv(node.args[0], env))
+            if z3.is_false(z3.simplify(a)):
+                return sym.mk_bool(True)  # lazy: the consequent may mention names that are unbound on this path
             b = self.truth(self.evalv(node.args[1], env))
         finally:
             self.spec -= 1
@@ -646,6 +686,14 @@ class CallMixin:
 
     def bi_print(self, node, env):
         return NONE
+
+    def bi_str(self, node, env):
+        if node.args:
+            self.eval(node.args[0], env)
+        return V(TStr, self.ctx.fresh_const(sym.StrSort, "str"))
+
+    def bi_repr(self, node, env):
+        return self.bi_str(node, env)
 
     def bi_list(self, node, env):
         if not node.args:
